@@ -1,13 +1,17 @@
 package checks
 
 import (
+	"bufio"
 	"encoding/json"
 	"fmt"
 	"os"
+	"os/exec"
+	"path/filepath"
 	"sort"
 	"strings"
 	"sync"
 	"sync/atomic"
+	"time"
 
 	"github.com/syndtr/goleveldb/leveldb"
 	"github.com/syndtr/goleveldb/leveldb/opt"
@@ -202,6 +206,9 @@ func (fr *c08Run) hang(db *leveldb.DB, call string, detail ...interface{}) {
 	lastFailed := fr.lastFailed()
 	sig := ""
 	switch {
+	case lk.CompCommitLk && typ == "manifest" && crDumpMentions(dump, "compactionTransact", "compactionCommit"):
+		// a background commit is alive and retrying: it holds compCommitLk (not a leaked lock)
+		sig = "compactionCommit:poisoned-manifest-writer:hang"
 	case strings.HasPrefix(lastFailed, "Transaction.Commit") && lk.CompCommitLk:
 		sig = "Transaction.Commit:compCommitLk-leaked:hang"
 	case strings.HasPrefix(lastFailed, "OpenTransaction") && lk.WriteLock:
@@ -650,12 +657,21 @@ func c08Spec(r *rng.R, i int) *crSpec {
 }
 
 func runC08(c *Ctx) {
-	c.Res.Rule = "per workload (80 marker batches incl. large-batch writes, explicit transactions - discarded after a failed Commit, as documented - and CompactRange; tiny buffers; background work settles between client calls so that operation order repeats): a fault-free run records every storage operation as (kind x file type x client call in progress), then the workload is re-run once per fault plan: the k-th operation of a (kind, type) fails, without effect or with effect (bytes written / file synced / created / removed / CURRENT set although an error is returned), singly, as a burst of 2-5 consecutive failures, or as a sampled pair; phase run = armed after Open, phase reopen = armed during a reopen of the populated DB. Quick takes the first, the last and a random position of every (kind, type, call) class, thorough all positions. The DB is used on after the fault (writes, transactions, CompactRange, scan + Gets every 10 batches), closed, and a Clone is reopened without faults. Oracles at every read and after the reopen: contents = exactly the batches whose markers are present, applied in issue order; present only batches that were issued; every batch whose call returned nil present (in the run and after the reopen); reads may fail but never return a value that disagrees; every call under a 20 s watchdog. One evaluation = one faulted run; non-trivial = at least one fault fired; distinct by fault plan. Part 2 (damaged data, default checksum options): one byte flipped in a table data block or a journal chunk of a settled closed DB: every Get returns the right value or an error, scans return only right pairs (all of them when no error is reported); journal damage may drop whole batches only. " + c08OptNote
+	c.Res.Rule = "per workload (80 marker batches incl. large-batch writes, explicit transactions - discarded after a failed Commit, as documented - and CompactRange; tiny buffers; background work settles between client calls so that operation order repeats): a fault-free run records every storage operation as (kind x file type x client call in progress), then the workload is re-run once per fault plan: the k-th operation of a (kind, type) fails, without effect or with effect (bytes written / file synced / created / removed / CURRENT set although an error is returned), singly, as a burst of 2-5 consecutive failures, or as a sampled pair, or combined with removes of one file type that keep failing; phase run = armed after Open, phase reopen = armed during a reopen of the populated DB. Quick takes the first, the last and a random position of every (kind, type, call) class, thorough all positions. The DB is used on after the fault (writes, transactions, CompactRange, scan + Gets every 10 batches), closed, and a Clone is reopened without faults. Oracles at every read and after the reopen: contents = exactly the batches whose markers are present, applied in issue order; present only batches that were issued; every batch whose call returned nil present (in the run and after the reopen); reads may fail but never return a value that disagrees; every call under a 20 s watchdog. One evaluation = one faulted run; non-trivial = at least one fault fired; distinct by fault plan. Part 2 (damaged data, default checksum options): one byte flipped in a table data block or a journal chunk of a settled closed DB: every Get returns the right value or an error, scans return only right pairs (all of them when no error is reported); journal damage may drop whole batches only. " + c08OptNote
+	if !crIsWorker() {
+		crIsolated(c, c08OnCrash)
+		return
+	}
+	defer crWorkerCheckpoint(c)()
+	if os.Getenv("VERIF_C08_CLOSE") != "" { // outside the property's fault alphabet; for experiments only
+		c08Kinds = append(c08Kinds, stor.OpClose)
+	}
 	once := &crSigOnce{}
 	nwl := c.Scale(3, 4)
 	type job struct {
-		plan *c08Plan
-		r    *rng.R
+		plan    *c08Plan
+		r       *rng.R
+		isolate bool // run in a process of its own (plans of a shape known to kill the process)
 	}
 	var jobs []job
 	for w := 0; w < nwl; w++ {
@@ -671,7 +687,7 @@ func runC08(c *Ctx) {
 		baseR := &c08Run{c: c, once: once, plan: &c08Plan{Workload: spec, Phase: "reopen", Note: c08OptNote}, bs: base.bs, o: base.o, r: r.Fork()}
 		baseR.run()
 		add := func(phase string, fs ...c08Fault) {
-			jobs = append(jobs, job{&c08Plan{Workload: spec, Phase: phase, Faults: fs, Note: c08OptNote}, r.Fork()})
+			jobs = append(jobs, job{&c08Plan{Workload: spec, Phase: phase, Faults: fs, Note: c08OptNote}, r.Fork(), len(fs) > 1 && fs[0].N >= 1<<30})
 		}
 		for _, phase := range []string{"run", "reopen"} {
 			ctxOf := base.inj.ctxOf
@@ -754,6 +770,24 @@ func runC08(c *Ctx) {
 			}
 			add("run", fa, fb)
 		}
+		// removes that keep failing (files cannot be deleted) combined with one other failure
+		for _, rt := range []string{"table", "journal", "manifest"} {
+			for _, kind := range []stor.Kind{stor.OpWrite, stor.OpSync, stor.OpCreate} {
+				for _, typ := range []string{"table", "journal", "manifest"} {
+					n := base.inj.counts[string(kind)+"/"+typ]
+					if n == 0 || base.inj.counts["remove/"+rt] == 0 {
+						continue
+					}
+					for i := 0; i < c.Scale(2, 10); i++ {
+						mode := "no-effect"
+						if r.Chance(1, 3) {
+							mode = "with-effect"
+						}
+						add("run", c08Fault{stor.OpRemove, rt, 1, 1 << 30, "no-effect"}, c08Fault{kind, typ, 1 + r.Intn(n), 1, mode})
+					}
+				}
+			}
+		}
 	}
 	c.Res.Note("fault plans generated: %d", len(jobs))
 	// a budget cut must not drop one kind of plan: shuffle (seeded)
@@ -768,6 +802,15 @@ func runC08(c *Ctx) {
 		fmt.Sscanf(v, "%d", &par)
 	}
 	trace := os.Getenv("VERIF_C08_TRACE") != ""
+	traceFile, _ := os.Create(filepath.Join(c.OutDir, "trace.txt")) // which plans were in flight, should the process die
+	var traceMu sync.Mutex
+	tracef := func(format string, a ...interface{}) {
+		if traceFile != nil {
+			traceMu.Lock()
+			fmt.Fprintf(traceFile, format, a...)
+			traceMu.Unlock()
+		}
+	}
 	sem := make(chan struct{}, par)
 	var wg sync.WaitGroup
 	var done int64
@@ -782,12 +825,18 @@ func runC08(c *Ctx) {
 			defer wg.Done()
 			defer func() { <-sem }()
 			spec := j.plan.Workload
+			if j.isolate {
+				c08RunIsolated(c, once, j.plan, i)
+				return
+			}
 			fr := &c08Run{c: c, once: once, plan: j.plan, bs: spec.gen(), o: c08Options(spec), r: j.r}
+			pj, _ := json.Marshal(j.plan)
+			tracef("START %d %s\n", i, pj)
 			if trace {
-				pj, _ := json.Marshal(j.plan)
 				fmt.Fprintf(os.Stderr, "START %d %s\n", i, pj)
 			}
 			c.Guard("fault:panic", j.plan, func() { fr.run() })
+			tracef("END %d\n", i)
 			if trace {
 				fmt.Fprintf(os.Stderr, "END %d %s\n", i, fr.outcome)
 			}
@@ -1040,4 +1089,184 @@ func c08DamageOne(c *Ctx, once *crSigOnce, r *rng.R, i int) {
 		c.Res.Count("damage_outcome", "table-data-block:compact-ok")
 	}
 	check("after-compaction")
+}
+
+// c08OnCrash pins a died worker down to the fault plan: the plans that were in flight are re-run one
+// by one in their own processes.
+func c08OnCrash(c *Ctx, dir, stderr string) bool {
+	f, err := os.Open(filepath.Join(dir, "trace.txt"))
+	if err != nil {
+		return false
+	}
+	inflight := map[int]string{}
+	var order []int
+	sc := bufio.NewScanner(f)
+	sc.Buffer(make([]byte, 1<<20), 1<<24)
+	for sc.Scan() {
+		l := sc.Text()
+		var i int
+		if strings.HasPrefix(l, "START ") {
+			parts := strings.SplitN(l, " ", 3)
+			if len(parts) == 3 {
+				fmt.Sscanf(parts[1], "%d", &i)
+				inflight[i] = parts[2]
+				order = append(order, i)
+			}
+		} else if strings.HasPrefix(l, "END ") {
+			fmt.Sscanf(l[4:], "%d", &i)
+			delete(inflight, i)
+		}
+	}
+	f.Close()
+	msg0, site0, trace0 := crPanicOf(stderr)
+	if msg0 == "" {
+		return false
+	}
+	exe, _ := os.Executable()
+	type hit struct {
+		plan, msg, site, trace string
+	}
+	var mu sync.Mutex
+	var hits []hit
+	var cands []string
+	sem := make(chan struct{}, 16)
+	var wg sync.WaitGroup
+	n := 0
+	for k := len(order) - 1; k >= 0 && n < 160; k-- {
+		i := order[k]
+		pj, ok := inflight[i]
+		if !ok {
+			continue
+		}
+		n++
+		cands = append(cands, pj)
+		wg.Add(1)
+		sem <- struct{}{}
+		go func(i int, pj string) {
+			defer wg.Done()
+			defer func() { <-sem }()
+			pdir := filepath.Join(dir, fmt.Sprintf("pin-%d", i))
+			os.MkdirAll(pdir, 0o755)
+			pf := filepath.Join(pdir, "plan.json")
+			os.WriteFile(pf, []byte(pj), 0o644)
+			for try := 0; try < 2; try++ {
+				mu.Lock()
+				found := len(hits) > 0
+				mu.Unlock()
+				if found {
+					return
+				}
+				cmd := exec.Command(exe, "-prop", "FAULTPLAN", "-out", pdir)
+				cmd.Env = append(os.Environ(), "VERIF_REPLAY="+pf)
+				var out strings.Builder
+				cmd.Stdout, cmd.Stderr = &out, &out
+				if err := cmd.Start(); err != nil {
+					return
+				}
+				done := make(chan error, 1)
+				go func() { done <- cmd.Wait() }()
+				select {
+				case err := <-done:
+					if err != nil {
+						if m, s, t := crPanicOf(out.String()); m != "" {
+							mu.Lock()
+							hits = append(hits, hit{pj, m, s, t})
+							mu.Unlock()
+							return
+						}
+					}
+				case <-time.After(90 * time.Second):
+					cmd.Process.Kill()
+					return
+				}
+			}
+		}(i, pj)
+	}
+	wg.Wait()
+	if len(hits) > 0 {
+		h := hits[0]
+		var plan c08Plan
+		json.Unmarshal([]byte(h.plan), &plan)
+		kind, typ := "none", "none"
+		if len(plan.Faults) > 0 {
+			f := plan.Faults[len(plan.Faults)-1]
+			kind, typ = string(f.Kind), f.Type
+		}
+		c.Res.Violate(fmt.Sprintf("fault:%s/%s:background-panic:%s", kind, typ, h.site), fmt.Sprintf("faults %v: a background goroutine of the DB panicked and killed the process: %s\n%s", plan.Faults, h.msg, h.trace),
+			map[string]interface{}{"plan": plan, "how": "VERIF_REPLAY=<file holding replay.plan> vh -prop FAULTPLAN -out DIR (re-run in its own process: reproduced)"})
+		c.Res.Count("signature", "fault:"+kind+"/"+typ+":background-panic:"+h.site)
+		return true
+	}
+	var plans []json.RawMessage
+	for _, p := range cands {
+		if len(plans) < 40 {
+			plans = append(plans, json.RawMessage(p))
+		}
+	}
+	c.Res.Violate("fault:background-panic:"+site0, fmt.Sprintf("a background goroutine of the DB panicked and killed the worker process (not reproduced when the %d plans in flight were re-run alone): %s\n%s", len(cands), msg0, trace0),
+		map[string]interface{}{"plans_in_flight": plans})
+	return true
+}
+
+// c08RunIsolated runs one plan in a process of its own and folds its outcome into the result.
+func c08RunIsolated(c *Ctx, once *crSigOnce, plan *c08Plan, i int) {
+	exe, _ := os.Executable()
+	dir := filepath.Join(c.OutDir, fmt.Sprintf("iso-%d", i))
+	os.MkdirAll(dir, 0o755)
+	pf := filepath.Join(dir, "plan.json")
+	pj, _ := json.Marshal(plan)
+	os.WriteFile(pf, pj, 0o644)
+	cmd := exec.Command(exe, "-prop", "FAULTPLAN", "-out", dir)
+	cmd.Env = append(os.Environ(), "VERIF_REPLAY="+pf, "VERIF_WORKER=")
+	var out strings.Builder
+	cmd.Stdout, cmd.Stderr = &out, &out
+	if err := cmd.Start(); err != nil {
+		return
+	}
+	done := make(chan error, 1)
+	go func() { done <- cmd.Wait() }()
+	var runErr error
+	select {
+	case runErr = <-done:
+	case <-time.After(150 * time.Second):
+		cmd.Process.Kill()
+		c.Res.Count("outcome", "isolated-run-timeout")
+		return
+	}
+	c.Res.Eval(fmt.Sprintf("%v/%s/%v", plan.Workload.Seed, plan.Phase, plan.Faults), true)
+	for _, f := range plan.Faults {
+		c.Res.Count("fault", fmt.Sprintf("%s:%s/%s:%s:combined-with-persistent-remove", plan.Phase, f.Kind, f.Type, f.Mode))
+	}
+	if runErr != nil {
+		if m, site, t := crPanicOf(out.String()); m != "" {
+			f := plan.Faults[len(plan.Faults)-1]
+			once.report(c, fmt.Sprintf("fault:%s/%s:background-panic:%s", f.Kind, f.Type, site), fmt.Sprintf("faults %v: a background goroutine of the DB panicked and killed the process: %s\n%s", plan.Faults, m, t),
+				map[string]interface{}{"plan": plan, "how": "VERIF_REPLAY=<file holding replay.plan> vh -prop FAULTPLAN -out DIR"})
+			c.Res.Count("outcome", "process-killed-by-panic")
+			return
+		}
+		c.Res.Count("outcome", "isolated-run-failed")
+		return
+	}
+	var cr crChildResult
+	if b, err := os.ReadFile(filepath.Join(dir, "result.json")); err == nil {
+		json.Unmarshal(b, &cr)
+	}
+	for _, v := range cr.Violations {
+		var replay interface{}
+		if b, err := os.ReadFile(v.File); err == nil {
+			var w struct {
+				Replay interface{} `json:"replay"`
+			}
+			json.Unmarshal(b, &w)
+			replay = w.Replay
+		}
+		once.report(c, v.Signature, v.Message, replay)
+	}
+	if len(cr.Violations) > 0 {
+		c.Res.Count("outcome", "violation")
+	} else {
+		c.Res.Count("outcome", "ok")
+	}
+	os.RemoveAll(dir)
 }
